@@ -123,3 +123,30 @@ def aave_world(frozen_bar=1, n=4):
     fr = {f"aave.{k}": v for k, v in frames.items()}
     fr["prices"] = prices
     return World("aave", build, roots, fr)
+
+
+# ---------------------------------------------------------------------------------------------------------
+def squeeth_world(kind="eq", frozen_bar=8, n=10):
+    from . import squeeth as sq
+
+    udata, sdata, prices = sq.make_frames(kind, n)
+    ranges = {"in": (sq.TICK0 - 1200, sq.TICK0 + 1200), "lo": (sq.TICK0 - 6000, sq.TICK0 - 3000), "hi": (sq.TICK0 + 3000, sq.TICK0 + 6000)}
+
+    def build():
+        um, sm = sq.make_markets(udata, sdata)
+        ua = sq.SlimUniAdapter(um, ranges)
+        sa = sq.SqueethAdapter(sm, ua, sdata)
+        ctx = Ctx(f"squeeth({kind})", prices, USD, [ua, sa], [(sq.WETH, 20), (sq.OSQTH, 50)], sdata.index)
+        ctx.begin_bar(frozen_bar)
+        return ctx
+
+    roots = (
+        (),
+        ("squeeth.open_deposit_mint[new,one,half,nolp]",),
+        ("squeeth.open_deposit_mint[new,one,near,nolp]",),
+        ("squni.add[in,part,part]",),
+        ("squni.add[in,part,part]", "squeeth.open_deposit_mint[new,one,half,lp]"),
+    )
+    w = World(f"squeeth({kind})", build, roots, {"squni.data": udata, "squeeth.data": sdata, "prices": prices})
+    w.allowed_gain = lambda ctx, op: sq.allowed_gain(w, ctx, op)
+    return w
